@@ -191,8 +191,13 @@ class ExecutorSchedules(Contract):
                       rank=0), "expect-the-other-rank's-outputs",
                  "exec.outputs")]
 
+    _spun: set = set()
+
     def run(self, h, inst):
         from pytato.distributed.execute import execute_distributed_partition
+        if inst["label"] in self._spun:
+            h.trivial = True
+            return
         try:
             S = setup(inst["prog"], inst["size"], "chain")
         except EngineSignal:
@@ -253,11 +258,24 @@ class ExecutorSchedules(Contract):
         prgs = {pid: mk_prg(pid, part)
                 for pid, part in partition.parts.items()}
         h.interp.unordered_hook = OneSiteAtATime(ctx)
+        # a loop that neither makes progress nor waits would spin for ever:
+        # bounded by a budget of interpreted calls (the longest path of the
+        # thorough tier on the unchanged tree takes 362; the budget is ~30x)
+        from pyvc.interp import StepBudgetExceeded
+        h.interp.max_steps = h.interp.steps + 10000
         try:
             out = h.call(execute_distributed_partition, partition, prgs, None,
                          comm, input_args={"x": S["xs"][me]})
         except EngineSignal:
             raise
+        except StepBudgetExceeded as e:
+            h.fail("exec.terminates-under-every-permitted-arrival-order",
+                   f"{e} without returning; arrivals so far {trace}, parts "
+                   f"executed {executed}")
+            # every further arrival order of this instance would spin the
+            # same way: one report is enough
+            self._spun.add(inst["label"])
+            return
         except WouldBlockForever as e:
             h.fail("exec.terminates-under-every-permitted-arrival-order",
                    f"{e}; arrivals so far {trace}, parts executed {executed}")
